@@ -310,28 +310,62 @@ pub fn benign_name(h: &str, salt: usize) -> String {
     format!("z {}", tail.repeat(n - 2))
 }
 
+/// A twin is only meaningful for names that are not Candid identifiers (an identifier
+/// cannot end a literal or add a token). Names with a tiny hash are excluded: a hash of 0
+/// legitimately turns a one-field record into a tuple in every generator.
 pub fn needs_twin(name: &str) -> bool {
-    !is_candid_id(name)
+    // (a name whose hash is a small number can play the role of a tuple index: "" and
+    // "\0" hash to 0)
+    !is_candid_id(name) && refmodel::hash::idl_hash(name) >= 8
 }
 
 pub struct Case {
     pub family: String,
     pub did: String,
     pub twin: Option<String>,
+    /// compare token-kind *multisets* instead of sequences (the twin may order fields and
+    /// methods differently)
+    pub twin_unordered: bool,
     pub view: View,
     /// hostile string / name, if any
     pub hostile: Option<String>,
     /// position class of the placement, if any
     pub pos: Option<String>,
+    /// for products (two-line docs, concatenations): the single hostile strings it is made
+    /// of; a violation already recorded for one of them at the same position subsumes this one
+    pub parts: Vec<String>,
 }
 
+/// A U_P program. Its twin renames every non-identifier name to a benign non-identifier of
+/// the same length; fields / methods may be ordered differently in the twin's output, hence
+/// the unordered comparison.
 pub fn upstream_case(family: &str, pr: &Prog) -> Case {
-    Case { family: family.to_string(), did: pr.to_did(), twin: None, view: view(pr), hostile: None, pos: None }
+    let names: Vec<String> = model::all_names(pr).into_iter().filter(|n| needs_twin(n)).collect();
+    let mut twin = None;
+    if !names.is_empty() {
+        for salt in 0..3 {
+            let map: std::collections::BTreeMap<String, String> = names
+                .iter()
+                .enumerate()
+                .map(|(i, n)| {
+                    let len = n.chars().count().max(4);
+                    let idx = format!("{}", (b'a' + ((i + salt * 7) % 26) as u8) as char);
+                    (n.clone(), format!("z {}{}", "z".repeat(len - 3), idx))
+                })
+                .collect();
+            if let Some(q) = model::rename_all(pr, &map) {
+                twin = Some(q.to_did());
+                break;
+            }
+        }
+    }
+    let hostile = if names.is_empty() { None } else { Some(names.iter().map(|n| format!("{n:?}")).collect::<Vec<_>>().join(",")) };
+    Case { family: family.to_string(), did: pr.to_did(), twin, twin_unordered: true, view: view(pr), hostile, pos: None, parts: vec![] }
 }
 
 /// All doc placements of `hostile` lines in `base`: one case per comment position, plus one
 /// case with the text at every position at once.
-pub fn doc_cases(base_name: &str, base: &Prog, lines: &[String], out: &mut Vec<Case>) {
+pub fn doc_cases(base_name: &str, base: &Prog, lines: &[String], parts: &[String], out: &mut Vec<Case>) {
     let (_, classes) = model::print(base, &Docs::new());
     let benign: Vec<String> = lines.iter().map(|l| benign_doc(l)).collect();
     let v = view(base);
@@ -345,9 +379,11 @@ pub fn doc_cases(base_name: &str, base: &Prog, lines: &[String], out: &mut Vec<C
             family: format!("doc/{base_name}"),
             did: model::print(base, &dh).0,
             twin: Some(model::print(base, &db).0),
+            twin_unordered: false,
             view: v.clone(),
             hostile: Some(label.clone()),
             pos: Some(format!("doc@{}", class.name())),
+            parts: parts.to_vec(),
         });
     }
     let mut dh = Docs::new();
@@ -360,18 +396,26 @@ pub fn doc_cases(base_name: &str, base: &Prog, lines: &[String], out: &mut Vec<C
         family: format!("doc/{base_name}"),
         did: model::print(base, &dh).0,
         twin: Some(model::print(base, &db).0),
+        twin_unordered: false,
         view: v,
         hostile: Some(label),
         pos: Some("doc@all".into()),
+        parts: parts.to_vec(),
     });
 }
 
 /// All placements of `name` in `base`: one case per name position (skipping positions where
 /// the program would become ill-formed). Returns the number of skipped positions.
-pub fn name_cases(base_name: &str, base: &Prog, name: &str, with_twin: bool, out: &mut Vec<Case>) -> u64 {
+pub fn name_cases(base_name: &str, base: &Prog, name: &str, with_twin: bool, parts: &[String], out: &mut Vec<Case>) -> u64 {
     let classes = model::name_positions(base);
     let mut skipped = 0;
+    let method_base = base_name.starts_with("NM");
     for (k, class) in classes.iter().enumerate() {
+        // twin bases: only the positions whose siblings have the same shape and name class
+        let is_method_pos = matches!(class, model::NameClass::ServiceTypeMethod | model::NameClass::ActorMethod);
+        if with_twin && needs_twin(name) && is_method_pos != method_base {
+            continue;
+        }
         let Some(h) = model::with_name(base, k, name) else {
             skipped += 1;
             continue;
@@ -386,9 +430,11 @@ pub fn name_cases(base_name: &str, base: &Prog, name: &str, with_twin: bool, out
             family: format!("name/{base_name}"),
             did: model::print(&h, &Docs::new()).0,
             twin,
+            twin_unordered: false,
             view: view(&h),
             hostile: Some(name.to_string()),
             pos: Some(format!("name@{}", class.name())),
+            parts: parts.to_vec(),
         });
     }
     skipped
